@@ -87,7 +87,7 @@ TYPES = {'int': int, 'str': str, 'list': list, 'dict': dict, 'tuple': tuple, 'fl
 
 
 class Builder:
-    def __init__(self, G, k, shared=None, on_nested=None, eager_render=True):
+    def __init__(self, G, k, shared=None, on_nested=None, eager_render=True, nested_stub=None):
         self.G, self.k = G, k
         self.arg_literals = {}    # id(list/dict passed in argument position) -> description
         self.nodes = {}
@@ -98,6 +98,7 @@ class Builder:
         self.shared_objs = {}
         self.on_nested = on_nested
         self.eager_render = eager_render    # render (str()) an inner error as soon as it is caught?
+        self.nested_stub = nested_stub      # {(pid, nth): value}: do not re-enter glom, return the recorded result
         self._sid = 0
         self.custom_classes = {}
 
@@ -270,6 +271,9 @@ class Builder:
             depth_key = ('_nest', me, probe.pid)
             if d.get('max_depth') is not None and self.__dict__.get(depth_key, 0) >= d['max_depth']:
                 return args[0]
+            if self.nested_stub is not None and (probe.pid, nth) in self.nested_stub:
+                k.event(probe.site + '.stub', 'nested-stubbed', None)
+                return args[0] if d.get('handle') == 'passthrough' else self.nested_stub[(probe.pid, nth)]
             k.event(probe.site + '.entry', 'nested-entry',
                     {'pid': probe.pid, 'counts': sorted([[list(key), n] for key, n in k.counts.items()
                                                          if key[0] == me])})
@@ -288,7 +292,7 @@ class Builder:
             k.event(probe.site + '.inner', 'nested-outcome',
                     canon.outcome(res, self.idmap, with_text=self.eager_render))
             if self.on_nested:
-                self.on_nested(d, res)
+                self.on_nested(d, res, probe.pid, nth)
             if res[0] == 'ok' and d.get('handle') != 'passthrough':
                 return res[1]
             h = d.get('handle', 'raise')
